@@ -1,4 +1,5 @@
 import Compute.Lemmas.C18Step
+import Compute.Model.Rng
 /-
 C18 — distributions are a pure function of current parameters and the RNG seed.
 
@@ -164,6 +165,16 @@ theorem observational_equality {d : Dist α} (hr : Reachable d) :
   rw [h] at htw
   cases htw
   rfl
+
+/-- The sample stream: for *any* sampler that reads the record and the generator state (the model of
+`Distribution::sample`; `Model/C18Obs.lean` has the concrete one at `Float`), the `n` draws taken from generator
+state `g` on a reachable object are the draws its freshly constructed twin gives from the same state.  No other
+argument exists: other distribution objects cannot influence the stream. -/
+theorem stream_equality {d : Dist α} (hr : Reachable d) {β : Type}
+    (sample : Dist α → Cv.Rng → Option (β × Cv.Rng)) (n : Nat) (g : Cv.Rng) :
+    ∀ tw, newD d.kind d.params = some tw →
+      Cv.Rng.drawN? (sample d) n g = Cv.Rng.drawN? (sample tw) n g :=
+  fun tw htw => (observational_equality hr).2 (fun x => Cv.Rng.drawN? (sample x) n g) tw htw
 
 /-- **update_total** — a bulk update to parameters the constructor accepts succeeds from every reachable state
 (whatever the previous parameters were: e.g. bounds entirely above or below the old interval; F35 was a
